@@ -220,6 +220,10 @@ def err_of(exc):
 # worker: run the implementation (+oracle) on one case
 # --------------------------------------------------------------------------------------------
 
+def impl_raised(obs):
+    return isinstance(obs, dict) and 'impl_exception' in obs and len(obs) <= 2
+
+
 def _impl_worker(args):
     modname, idx, inp = args
     mod = importlib.import_module('props.' + modname)
@@ -229,7 +233,18 @@ def _impl_worker(args):
         os.chdir(work)
         try:
             obs = mod.run_impl(inp, work)
-        except Exception as e:  # harness problem, not an implementation error (those are caught in run_impl)
+        except Exception as e:
+            # run_impl catches the errors the library is ALLOWED to raise.  What arrives here is either a defect of the
+            # harness (no frame of the library on the stack: infrastructure, exit 2) or the library raising inside a
+            # call that succeeds for every generated input on the unchanged tree: that is an observation, and the
+            # case is its replay
+            tb = traceback.extract_tb(e.__traceback__)
+            lib = [fr for fr in tb if '/pyUSID/' in fr.filename and '/verif/' not in fr.filename]
+            if lib:
+                where = '%s:%s' % (lib[-1].filename.split('/pyUSID/')[-1], lib[-1].name)
+                return idx, {'impl_exception': type(e).__name__, 'where': where}, \
+                    ['unexpected-exception: the library raised %s in %s during a call that must succeed: %s'
+                     % (type(e).__name__, where, repr(e)[:300])], True
             return idx, None, ['HARNESS-EXCEPTION ' + repr(e) + '\n' + traceback.format_exc()[-1500:]], False
         obs = canon(obs)
         fails = list(mod.oracle(inp, obs))
@@ -387,12 +402,13 @@ def run_check(prop, tier='quick', seed=0, replay=None):
             if hasattr(mod, 'model_requests_obs'):
                 reqs, spans = [], []
                 for c, r in zip(cases, results):
-                    rs = mod.model_requests_obs(c, r[0])
+                    rs = [] if impl_raised(r[0]) else mod.model_requests_obs(c, r[0])
                     spans.append((len(reqs), len(reqs) + len(rs)))
                     reqs.extend(rs)
                 resp = run_driver(reqs, main=getattr(mod, 'DRIVER', 'Main.lean'))
                 for i, (c, (a, b)) in enumerate(zip(cases, spans)):
-                    notes = mod.model_compare(c, results[i][0], resp[a:b])
+                    notes = ['the library raised'] if impl_raised(results[i][0]) else \
+                        mod.model_compare(c, results[i][0], resp[a:b])
                     model_obs[i] = {'notes': notes[:5]}
                     if notes:
                         disagreements.append(i)
@@ -400,6 +416,9 @@ def run_check(prop, tier='quick', seed=0, replay=None):
             else:
                 model_obs = model_observations(mod, cases)
                 for i, (c, mo) in enumerate(zip(cases, model_obs)):
+                    if impl_raised(results[i][0]):
+                        disagreements.append(i)
+                        continue
                     io = canon(mod.project(c, results[i][0])) if hasattr(mod, 'project') else results[i][0]
                     if jdump(io) != jdump(mo):
                         disagreements.append(i)
@@ -446,6 +465,7 @@ def run_check(prop, tier='quick', seed=0, replay=None):
             payload = {'property': prop, 'kind': 'no-failing-input-found', 'tier': tier, 'seed': seed,
                        'broken': broken,
                        'disagreements': [{'input': cases[i], 'impl_observation':
+                                          results[i][0] if impl_raised(results[i][0]) else
                                           canon(mod.project(cases[i], results[i][0])) if hasattr(mod, 'project')
                                           else (results[i][0] if i not in disagreement_notes else '(see notes)'),
                                           'model_observation': model_obs[i]} for i in disagreements[:5]],
@@ -464,7 +484,11 @@ def run_check(prop, tier='quick', seed=0, replay=None):
         j = (i * 7919) % len(cases)
         samples.append({'input': cases[j], 'impl_observation_digest': hashlib.sha256(jdump(results[j][0]).encode()).hexdigest()[:16],
                         'model_agrees': j not in disagreements})
-    dist = mod.distribution(cases, [r[0] for r in results]) if hasattr(mod, 'distribution') else {}
+    ok_idx = [i for i, r in enumerate(results) if not impl_raised(r[0])]
+    dist = mod.distribution([cases[i] for i in ok_idx], [results[i][0] for i in ok_idx]) \
+        if hasattr(mod, 'distribution') else {}
+    if len(ok_idx) < len(cases):
+        dist['library_raised'] = len(cases) - len(ok_idx)
     ev = {
         'property_id': prop, 'tier': tier if tier in ('quick', 'thorough') else 'quick', 'seed': int(seed),
         'level': 'proof',
